@@ -255,7 +255,7 @@ PROPS["C12"] = {
 
 COMPOSE_DIFF = {"slice": "compose", "n_quick": 640, "n_thorough": 6400, "seeds_thorough": 3, "n_search": 3200, "par": 16}
 COMPOSE_RULE = ("compose slice (retry policies optionally with a max duration and scripts with outcomes that outlast it; scripted cancellation points, see C08): random stacks (depth 0-5, with repetition) of retry / breaker / bulkhead / rate limiter / fallback / cache / timeout "
-                "(+ an innermost hedge in 1 of 6 cases) built from the real builders with random configurations and handle/abort/cancel "
+                "(+ a hedge in 1 of 6 cases: innermost, or in a third of them at any position) built from the real builders with random configurations and handle/abort/cancel "
                 "conditions; 1-5 successive executions per case against the same stateful instances, scripts of 0-8 outcomes (values 0-2, four "
                 "error kinds, blocking-until-cancelled outcomes when something can release them), context cache keys, standalone bulkhead "
                 "permits, clock advances, sync and async entry points; every listener the builders expose is recorded in one ordered log with "
@@ -263,7 +263,7 @@ COMPOSE_RULE = ("compose slice (retry policies optionally with a max duration an
                 "Retries/Hedges, log, breaker state+metrics, free permits, cache contents; non-trivial = more than the three executor events or an error result")
 COMPOSE_ASSUME = ["instant outcomes complete long before any timer (hedge delay 6 ms, timeout 80 ms): schedules of racing timers belong to C07/C09",
                   "user functions, listeners and predicates do not panic and cooperate with cancellation"]
-COMPOSE_MODELLED = ["hedge is exercised as the innermost policy only (cancelled attempts would otherwise run inner policies concurrently with the caller)",
+COMPOSE_MODELLED = ["a hedge at a position other than the innermost is exercised with instant outcomes only (a blocked attempt would run the policies inside the hedge concurrently with the next attempt); blocking outcomes only with an innermost hedge",
                     "rate limiter inside a stack uses max wait 0 (no real waiting) behind the virtual stopwatch"]
 COMPOSE_FACTS = ["executeLoop", "effects/executor:executor.execute", "effects/policyexecutor:BaseExecutor.Apply", "effects/policyexecutor:BaseExecutor.PostExecute"]
 
